@@ -167,10 +167,19 @@ fn create_or_update_iso_literals<TCompilationProfile: CompilationProfile>(
         // Not a file that a batch compile would read.
         return Ok(());
     }
-    let (relative_path, content) =
-        // TODO this function should live here
-        read_file(path.to_path_buf(), db.get_current_working_directory())?;
-    db.insert_iso_literal(relative_path, content);
+    // TODO this function should live here
+    match read_file(path.to_path_buf(), db.get_current_working_directory())? {
+        Some((relative_path, content)) => db.insert_iso_literal(relative_path, content),
+        None => {
+            // The file is skipped (as in a batch compile), so it must not stay
+            // in the map with its previous content either.
+            let relative_path = relative_path_from_absolute_and_working_directory(
+                db.get_current_working_directory(),
+                &path.to_path_buf(),
+            );
+            db.remove_iso_literal(relative_path);
+        }
+    }
     Ok(())
 }
 
